@@ -2800,23 +2800,21 @@ sse_rule_subusl_slow (OrcCompiler *p, void *user, OrcInstruction *insn)
   const int tmp = orc_compiler_get_temp_reg (p);
   const int tmp2 = orc_compiler_get_temp_reg (p);
 
+  /* mask = (a > b) unsigned = (a ^ 0x80000000) > (b ^ 0x80000000) signed */
+  orc_sse_emit_pcmpeqd (p, tmp2, tmp2);
+  orc_sse_emit_pslld_imm (p, 31, tmp2);
+  orc_sse_emit_movdqa (p, src0, tmp);
+  orc_sse_emit_pxor (p, tmp2, tmp);
+  orc_sse_emit_pxor (p, src1, tmp2);
+  orc_sse_emit_pcmpgtd (p, tmp2, tmp);
+
   if (src0 != dest) {
     orc_sse_emit_movdqa (p, src0, dest);
   }
 
-  orc_sse_emit_movdqa (p, src1, tmp2);
-  orc_sse_emit_psrld_imm (p, 1, tmp2);
-
-  orc_sse_emit_movdqa (p, dest, tmp);
-  orc_sse_emit_psrld_imm (p, 1, tmp);
-  orc_sse_emit_psubd (p, tmp, tmp2);
-
-  /* turn overflow bit into mask */
-  orc_sse_emit_psrad_imm (p, 31, tmp2);
-
   /* compute the difference, then and over the mask */
   orc_sse_emit_psubd (p, src1, dest);
-  orc_sse_emit_pand (p, tmp2, dest);
+  orc_sse_emit_pand (p, tmp, dest);
 
 }
 
